@@ -157,7 +157,7 @@ static void iv_wait_got_sigchld(void *_dummy)
 		 * and events for the new user of this pid would then end
 		 * up at the wrong interest.
 		 */
-		if (iv_wait_status_dead(status)) {
+		if (p != NULL && iv_wait_status_dead(status)) {
 			iv_avl_tree_delete(&iv_wait_interests, &p->avl_node);
 			p->flags = IV_WAIT_STATUS_DEAD;
 		}
